@@ -48,7 +48,8 @@ func c04Decide(x *Exec, e *modelreg.Entry) *modelreg.Answer {
 			x.TagAt = e.Seq + 1
 		}
 	}
-	if x.Second {
+	if x.Second || x.Sc.FailShared {
+		// (scenarios whose environment already contains the failure spend their bound on schedules only)
 		return nil
 	}
 	ch := x.C.Choose("env", 1+len(c04Faults), nil)
@@ -295,6 +296,21 @@ func c04Scenarios(thorough bool) []schedItem {
 	}
 	out = append(out, schedItem{Scen{Graph: "G3", Pair: "two-reg", Opt: "default", Feat: "full", Pre: "empty", ByDigest: true}, 1, false})
 	out = append(out, schedItem{Scen{Graph: "G3", Pair: "two-reg", Opt: "recursive", Feat: "full", Pre: "complete"}, 1, false})
+	// content shared between sibling manifests that the source cannot serve: the sibling that waits for
+	// the other's copy of it must learn that the copy failed, whichever of them gets to run first after
+	// the failure is published (log records are scheduling points here)
+	for _, g := range []string{"G3", "G19"} {
+		for _, p := range []string{"two-reg"} {
+			for _, f := range []string{"full", "novalidate"} {
+				if f == "novalidate" && p == "reg-dir" {
+					continue
+				}
+				for _, st := range []bool{false, true} {
+					out = append(out, schedItem{Scen{Graph: g, Pair: p, Opt: "default", Feat: f, Pre: "empty", FailShared: true, LogPoints: true, Stall: st}, 2, false})
+				}
+			}
+		}
+	}
 	return out
 }
 
